@@ -24,6 +24,11 @@ type SolverCfg struct {
 var solverOrder = []string{"z3-new", "z3", "cvc5"}
 
 func (o *Obl) smt(withModel bool) string {
+	if o.vc != nil && o.vc.rawQueries != nil {
+		if q, ok := o.vc.rawQueries[o]; ok {
+			return q
+		}
+	}
 	var b strings.Builder
 	if withModel {
 		b.WriteString("(set-option :produce-models true)\n")
